@@ -4,7 +4,8 @@ from harness.core import Violation, HarnessError, run_hypothesis, dec, exc_key, 
 DESCRIPTION = {
     "level": "fault_enumeration",
     "rule": ("Two sessions (originator, responder) with cryptobox KeyRings are joined through a scripted router (both frameworks, several serializers).  Hypothesis draws the "
-             "keyring layout {default key, per-prefix keys, originator-only / responder-only key halves, mismatching keys}, URIs/args/kwargs from the JSON domain (bytes, nesting, "
+             "keyring layout {default key, per-prefix keys, originator-only / responder-only key halves, mismatching keys, a key for the covering prefix installed on both ends "
+             "*after* the URIs were first used - messages must then open under the new key with PyNaCl directly, ciphertexts under the superseded key are refused}, URIs/args/kwargs from the JSON domain (bytes, nesting, "
              "unicode) carrying a unique marker (also requests without any argument, whose result still carries it), and the direction {publish->event, call->invocation, yield->result, error}.  Fault enumeration in transit: every single-byte "
              "alteration of the ciphertext (each position x a drawn non-zero XOR; thorough: several XOR values), truncations, swapping the envelope URI (ciphertext of a.b delivered "
              "under registration/subscription a.c) and replay under another key.  Oracle: untampered => handler/endpoint/caller receive exactly the sent args/kwargs, the WAMP "
@@ -16,6 +17,19 @@ DESCRIPTION = {
 }
 
 MARK = "S3CR3TMARK"
+_REKEY = None
+
+
+def independent_open(payload, responder_priv_b64, originator_pub_b64):
+    """decrypt a cryptobox payload with PyNaCl directly (responder's view); None if it does not authenticate under that key pair"""
+    import json
+    from nacl.public import PrivateKey, PublicKey, Box
+    from nacl.encoding import Base64Encoder
+    from nacl.exceptions import CryptoError
+    try:
+        return json.loads(Box(PrivateKey(responder_priv_b64.encode(), encoder=Base64Encoder), PublicKey(originator_pub_b64.encode(), encoder=Base64Encoder)).decrypt(payload).decode("utf8"))
+    except (CryptoError, ValueError):
+        return None
 ENC_URIS = {"wamp.error.encryption.trusted_uri_mismatch", "wamp.error.encryption.decrypt_error", "wamp.error.no_payload_codec"}
 
 
@@ -41,7 +55,7 @@ def strategy():
     from harness import wampwire as W
     vals = st.lists(W.values, max_size=3)
     kws = st.dictionaries(st.sampled_from(["a", "b", "código", "x1"]), W.values, max_size=3)
-    return st.fixed_dictionaries({"layout": st.sampled_from(["default", "default", "prefix", "halves", "mismatch", "responder-no-codec"]),
+    return st.fixed_dictionaries({"layout": st.sampled_from(["default", "default", "prefix", "halves", "mismatch", "responder-no-codec", "rekey"]),
                                   "direction": st.sampled_from(["publish", "call", "call-error"]), "args": vals, "kwargs": kws,
                                   "ser": st.sampled_from(["json", "cbor", "msgpack"]), "xor": st.integers(1, 255), "seed": st.integers(0, 1 << 20),
                                   "empty": st.sampled_from([False, False, False, True])})    # a request without any arguments (the result still carries the secret)
@@ -58,6 +72,15 @@ def keyrings(layout):
     a_priv, a_pub = gen()
     b_priv, b_pub = gen()
     c_priv, c_pub = gen()
+    global _REKEY
+    _REKEY = None
+    if layout == "rekey":
+        # both ends start with a default key; after the URIs have been used once, a key for the covering prefix is installed on both ends
+        o, r = KeyRing(default_key=Key(originator_priv=a_priv, responder_priv=b_priv)), KeyRing(default_key=Key(originator_priv=a_priv, responder_priv=b_priv))
+        a2_priv, a2_pub = gen()
+        b2_priv, b2_pub = gen()
+        _REKEY = {"make": lambda: Key(originator_priv=a2_priv, responder_priv=b2_priv), "b2_priv": b2_priv, "a2_pub": a2_pub, "b_priv": b_priv, "a_pub": a_pub}
+        return o, r
     if layout in ("default", "responder-no-codec"):
         full = Key(originator_priv=a_priv, responder_priv=b_priv)
         o, r = KeyRing(default_key=full), KeyRing(default_key=Key(originator_priv=a_priv, responder_priv=b_priv))
@@ -89,6 +112,7 @@ class Pair:
         if kr is not None:
             self.r.session.set_payload_codec(kr)
         self.M = self.o.message
+        self.ko, self.kr, self.rekey = ko, kr, _REKEY
         self.calls = []        # what the responder's handlers/endpoints saw
         self.rid = 100
 
@@ -137,16 +161,31 @@ def check_flow(c, n_xors=1):
         if c.get("empty"):
             args, kwargs = [], {}
         layout = c["layout"]
-        can_decrypt = layout in ("default", "prefix", "halves")
+        can_decrypt = layout in ("default", "prefix", "halves", "rekey")
         if c["direction"] == "publish":
             seen = []
             tr = r.track(r.call(lambda: r.session.subscribe(lambda *a, **k: seen.append((a, k)), "com.myapp.topic1")))
             r.feed(M.Subscribed(r.t.sent[-1].request, 801))
             tr2 = r.track(r.call(lambda: r.session.subscribe(lambda *a, **k: seen.append(("OTHER", a, k)), "com.myapp.topic2")))
             r.feed(M.Subscribed(r.t.sent[-1].request, 802))
+            old = None
+            if layout == "rekey":
+                o.call(lambda: o.session.publish("com.myapp.topic1", "warm-up"))
+                old = o.t.sent[-1]
+                r.feed(M.Event(801, 4999, payload=old.payload, enc_algo=old.enc_algo, enc_key=old.enc_key, enc_serializer=old.enc_serializer))
+                if len(seen) != 1:
+                    raise Violation("C20|event|payload-not-recovered", "warm-up event before the key change: %r" % (brief(seen),), c)
+                del seen[:]
+                p.ko.set_key("com.myapp.", p.rekey["make"]())
+                p.kr.set_key("com.myapp.", p.rekey["make"]())
             o.call(lambda: o.session.publish("com.myapp.topic1", *args, **kwargs))
             pub = o.t.sent[-1]
             p.wire_checks(o, pub, "publish")
+            if layout == "rekey":
+                clear = independent_open(pub.payload, p.rekey["b2_priv"], p.rekey["a2_pub"])
+                if clear is None or clear.get("uri") != "com.myapp.topic1":
+                    raise Violation("C20|publish|not-encrypted-under-the-applicable-key", "after set_key('com.myapp.') the PUBLISH does not open under the new prefix key (opens under the superseded default key: %r)" % (
+                        independent_open(pub.payload, p.rekey["b_priv"], p.rekey["a_pub"]) is not None,), c)
 
             def deliver(payload, sub=801, pubid=[5000]):
                 pubid[0] += 1
@@ -166,6 +205,10 @@ def check_flow(c, n_xors=1):
                 stats["tampered"] += 1
                 if got:
                     raise Violation("C20|event|tampered-ciphertext-delivered", "%s: handler invoked with %r" % (name, brief(got)), c)
+            if old is not None:
+                got = deliver(old.payload)
+                if got:
+                    raise Violation("C20|event|superseded-key-accepted", "an EVENT encrypted under the superseded key reached the handler after set_key(): %r" % (brief(got),), c)
             got = deliver(pub.payload, sub=802)
             if got:
                 raise Violation("C20|event|envelope-uri-mismatch-delivered", "ciphertext of topic1 delivered under topic2 reached the handler: %r" % (brief(got),), c)
@@ -181,9 +224,25 @@ def check_flow(c, n_xors=1):
             for name, sid in (("com.myapp.proc1", 901), ("com.myapp.proc2", 902)):
                 tr = r.track(r.call(lambda name=name: r.session.register(endpoint, name)))
                 r.feed(M.Registered(r.t.sent[-1].request, sid))
+            old = None
+            if layout == "rekey":
+                tr_w = o.track(o.call(lambda: o.session.call("com.myapp.proc1", "warm-up")))
+                old = o.t.sent[-1]
+                p.rid += 1
+                r.feed(M.Invocation(p.rid, 901, payload=old.payload, enc_algo=old.enc_algo, enc_key=old.enc_key, enc_serializer=old.enc_serializer))
+                if len(invoked) != 1 or type(r.t.sent[-1]).__name__ != "Yield":
+                    raise Violation("C20|invocation|payload-not-recovered", "warm-up call before the key change: invoked=%r" % (brief(invoked),), c)
+                del invoked[:]
+                p.ko.set_key("com.myapp.", p.rekey["make"]())
+                p.kr.set_key("com.myapp.", p.rekey["make"]())
             tr_call = o.track(o.call(lambda: o.session.call("com.myapp.proc1", *args, **kwargs)))
             call = o.t.sent[-1]
             p.wire_checks(o, call, "call")
+            if layout == "rekey":
+                clear = independent_open(call.payload, p.rekey["b2_priv"], p.rekey["a2_pub"])
+                if clear is None or clear.get("uri") != "com.myapp.proc1":
+                    raise Violation("C20|call|not-encrypted-under-the-applicable-key", "after set_key('com.myapp.') the CALL does not open under the new prefix key (opens under the superseded default key: %r)" % (
+                        independent_open(call.payload, p.rekey["b_priv"], p.rekey["a_pub"]) is not None,), c)
             if c["direction"] == "call-error":
                 fail_with.append(1)
 
@@ -205,6 +264,12 @@ def check_flow(c, n_xors=1):
                     raise Violation("C20|invocation|tampered-ciphertext-delivered", "%s: endpoint invoked with %r" % (name, brief(inv)), c)
                 if type(reply).__name__ != "Error" or reply.error not in ENC_URIS:
                     raise Violation("C20|invocation|tampered-not-answered-with-encryption-error", "%s: reply %s %r" % (name, type(reply).__name__, getattr(reply, "error", None)), c)
+            if old is not None:
+                inv, reply = invoke(old.payload)
+                if inv:
+                    raise Violation("C20|invocation|superseded-key-accepted", "an INVOCATION encrypted under the superseded key reached the endpoint after set_key(): %r" % (brief(inv),), c)
+                if type(reply).__name__ != "Error" or reply.error not in ENC_URIS:
+                    raise Violation("C20|invocation|superseded-key-not-answered-with-encryption-error", repr(getattr(reply, "error", None)), c)
             inv, reply = invoke(call.payload, reg=902)
             if inv:
                 raise Violation("C20|invocation|envelope-uri-mismatch-delivered", "ciphertext of proc1 invoked proc2: %r" % (brief(inv),), c)
